@@ -24,6 +24,10 @@ pub fn scopes(rep: &Report, checks: Checks) {
     let names = crate::gen::name_alphabet();
     let alpha: Vec<Value> = alphabet_trees(&base, &names).into_iter().filter(|u| u.get("cnf").is_none()).collect();
     run_structures(rep, "alphabet pass: every leaf value / member name of the alphabets at every position", &alpha, &safe_strategies, &rot, checks, true);
+    // D2: name-prefix family
+    let pool = ["a", "ab", "abc", "b"];
+    let nt = if quick { named_trees(2, 2, &pool) } else { named_trees(3, 3, &pool) };
+    run_structures(rep, "name-prefix family: member names drawn from {a, ab, abc, b} in every sibling-distinct way x all strategies x all selections", &nt, &all_strats, &cheap, checks, true);
     // E: depth chains
     let ch = chains(if quick { 6 } else { 8 });
     run_structures(rep, "depth chains: all object/array patterns of a single nested path", &ch, &few_strategies, &rot, checks, true);
